@@ -1,4 +1,4 @@
 SPECIFICATION Spec
-CONSTANTS Conns = {"c1", "c2", "c3"} MaxOut = 1 MatchByPort = FALSE
+CONSTANTS Conns = {"c1", "c2", "c3"} MaxOut = 1 MatchByPort = FALSE Timeouts = 0 OneShotBuffered = TRUE
 INVARIANTS FlushSound OwnReport OnePoll Bounded
 CHECK_DEADLOCK FALSE
